@@ -18,8 +18,26 @@ def replay_known(ctx, res):
                 res.known_hits.append(('F6', '%s: %r rejects %r' % (f['what'], w['grammar'], w['text'])))
 
 
+def replay_fixed(ctx, res):
+    from lark import Lark
+    from lark.exceptions import UnexpectedInput
+    for f in ctx['known']:
+        if f['id'] == 'F32' and f['status'] == 'fixed':
+            w = f['witness']
+            for lexer in ('basic', 'dynamic', 'dynamic_complete'):
+                p = Lark(w['grammar'], parser='earley', lexer=lexer)
+                for text, want in [(t, True) for t in w['accept']] + [(t, False) for t in w['reject']]:
+                    try:
+                        p.parse(text); ok = True
+                    except UnexpectedInput:
+                        ok = False
+                    if ok != want:
+                        res.violation('regression of fixed finding F32: ' + f['what'], {'grammar': w['grammar'], 'lexer': lexer, 'text': text, 'accepted': ok, 'in_language': want})
+
+
 def run(ctx, res):
     replay_known(ctx, res)
+    replay_fixed(ctx, res)
     stream, problems = earleylib.earley_stream(ctx, 1, 2500, 30000)
     for job, st, detail in problems:
         if st == 'exc':
